@@ -4,6 +4,7 @@ package store
 
 import (
 	"os"
+	"path/filepath"
 
 	"github.com/douban/gobeansdb/cmem"
 	vrt "github.com/douban/gobeansdb/zzvrt"
@@ -245,7 +246,8 @@ func VH_C07_X2_kill_during_gc() {
 	// F21: an in-place rewrite that was killed before its final truncate leaves, behind the
 	// rewritten prefix, stale records of keys whose newer record now sits at a lower offset
 	stale := false
-	for c := 0; c <= 3; c++ {
+	dumps, _ := filepath.Glob(snap + "/*.idx.hash")
+	for c := 0; c <= 3 && len(dumps) == 0; c++ { // F21 needs the tree to be rebuilt: no tree dump survives
 		recs, _ := scanFile(genDataPath(snap, c))
 		for i := range recs {
 			for j := i + 1; j < len(recs); j++ {
